@@ -14,6 +14,9 @@ REPO = Path(os.environ.get("MOKAPOT_REPO", "/repo"))
 PKG = "mokapot"
 
 
+_REF = None
+
+
 class AnalysisError(Exception):
     """The analysis cannot decide (anchor missing, idiom not recognised...).
 
@@ -28,6 +31,13 @@ class Module:
         self.src = src
         self.lines = src.splitlines()
         self.tree = ast.parse(src, filename=str(path))
+        self.renamed = []
+        if not os.environ.get("MOKAPOT_NO_REFNAMES"):
+            from .refnames import load_ref, normalise_module
+            global _REF
+            if _REF is None:
+                _REF = load_ref()
+            self.renamed = normalise_module(self.tree, name, _REF)
         self.imports: dict[str, str] = {}
         self.assigns: dict[str, ast.AST] = {}
         self.is_pkg = path.name == "__init__.py"
@@ -141,6 +151,8 @@ class Program:
             self.modules[name] = mod
             self.stats["loc"] += len(mod.lines)
         self.stats["modules"] = len(self.modules)
+        self.stats["functions_alpha_normalised"] = sum(
+            len(m.renamed) for m in self.modules.values())
         for mod in self.modules.values():
             self._index_imports(mod)
         for mod in self.modules.values():
